@@ -295,7 +295,27 @@ class ObjectsMixin:
             return
         raise Unsupported(f'setattr on {type(obj).__name__}')
 
+    def mark_cached(self, v, owner, depth=0):
+        """results of lru_cache'd functions are shared between callers: writing to them is an effect"""
+        if depth > 3:
+            return
+        if isinstance(v, (Instance, SList, SArr)):
+            v.cached_by = owner
+            if isinstance(v, Instance):
+                for x in v.fields.values():
+                    self.mark_cached(x, owner, depth + 1)
+        elif isinstance(v, list):
+            self.cached_lists[id(v)] = (owner, v)
+            for x in v:
+                self.mark_cached(x, owner, depth + 1)
+
     def note_write(self, obj, key):
+        owner = getattr(obj, 'cached_by', None)
+        if owner is None and isinstance(obj, list):
+            rec = self.cached_lists.get(id(obj))
+            owner = rec[0] if rec is not None and rec[1] is obj else None
+        if owner is not None:
+            self.note_effect('cache_write', f'write into a result of the memoised function {owner}')
         if self.write_log is not None:
             self.write_log.append((obj, key))
 
@@ -398,6 +418,8 @@ class ObjectsMixin:
         try:
             self.exec_block(node.body, env)
         except ReturnSignal as r:
+            if f.lru_cache:
+                self.mark_cached(r.value, f.qualname)
             return r.value
         finally:
             self.call_depth -= 1
